@@ -19,6 +19,10 @@
 (*    findings/C15.json), so that long sequences keep exercising everything else; the ghost   *)
 (*    record gh exists only for these generator guards and is never part of a verdict.        *)
 (*    ExtPct = share (percent) of commands outside the literally listed subset.               *)
+(*    Lock = TRUE: the terminal is configured for UTF-8 (urwid's encoding "utf8"); FALSE: the  *)
+(*    program selects the main character set (ESC % G / ESC % @, "mcs") and the runs of bytes  *)
+(*    at or above 0x80 ("raw") are generated well-formed for the character set then in force:  *)
+(*    UTF-8 sequences after ESC % G, single bytes 0xA0..0xFF after ESC % @.                    *)
 (*  - RegSpec is the EXHAUSTIVE generator of the scrolling-region family: the screen filled   *)
 (*    with text, one mode prelude, every region, the cursor addressed to every row (above /   *)
 (*    inside / on the margins / below the region) at the left and the right edge, then every  *)
@@ -28,7 +32,7 @@
 (*    the final states (tlc -dump) and replays them into the real emulator.                   *)
 EXTENDS VTermOps
 
-CONSTANTS W, H, Depth, Clean, ExtPct, RegDepth
+CONSTANTS W, H, Depth, Clean, ExtPct, RegDepth, Lock
 VARIABLES t, n, last, gh, hist
 vars == <<t, n, last, gh, hist>>
 
@@ -64,12 +68,17 @@ ExtCmds ==
   \cup {C1("tbc", a) : a \in {0, 3}}
   \cup {C1(k, a) : k \in {"decom", "irm", "decawm", "lnm"}, a \in 0..1}
   \cup {Cmd("scs", g, b, NoPs) : g \in 0..1, b \in {48, 66}}
+  \cup {C1("mcs", a) : a \in 0..1} \cup {C1("raw", 2)}
 
 McCmds  == Common(1..2, SgrSmall, 0..(W - 1), 0..(H - 1)) \cup (IF ExtPct > 0 THEN ExtCmds ELSE {})
 
 \* "put" prints the next letter, "txt" with a = k a run of the next k letters
+\* "raw" with a = k: k characters U+00A0..U+00FF as they are on the wire in the main character set now in force (their UTF-8
+\* sequences C2 A0 .. C3 BF, or the single bytes A0 .. FF)
+RawCps(k) == [i \in 1..k |-> 160 + ((7 * n + 37 * i) % 96)]
 Concrete(c) == IF c.t = "put" THEN [c EXCEPT !.a = Letter]
                ELSE IF c.t = "txt" /\ c.ps = NoPs THEN [c EXCEPT !.ps = [i \in 1..c.a |-> 97 + ((n + i - 1) % 26)], !.a = 0]
+               ELSE IF c.t = "raw" /\ c.ps = NoPs THEN [c EXCEPT !.ps = IF Utf8On(t) THEN Utf8EncodeAll(RawCps(c.a)) ELSE RawCps(c.a)]
                ELSE c
 
 HasTrue(ps) == \E i \in 1..Len(ps) : ps[i] \in {38, 48} /\ i + 1 <= Len(ps) /\ ps[i + 1] = 2
@@ -96,11 +105,11 @@ Do(c0) ==
   /\ hist' = IF hist = <<>> THEN hist ELSE Append(hist, c)
   /\ gh' = [tm  |-> IF c.t # "sgr" THEN gh.tm
                     ELSE IF c.ps = <<>> \/ c.ps[Len(c.ps)] = 0 THEN FALSE ELSE (gh.tm \/ HasTrue(c.ps)),
-            g1d |-> gh.g1d \/ (c.t = "scs" /\ c.a = 1),
+            g1d |-> gh.g1d \/ (c.t = "scs" /\ c.a = 1 /\ ~t.mcs),     \* (the console ignores designations while UTF-8 is selected)
             sv  |-> gh.sv \/ c.t = "decsc"]
 
 Gh0 == [tm |-> FALSE, g1d |-> FALSE, sv |-> FALSE]
-Init == t = NewVT(W, H) /\ n = 0 /\ last = Cmd("init", 0, 0, NoPs) /\ gh = Gh0 /\ hist = <<>>
+Init == t = NewVTL(W, H, Lock) /\ n = 0 /\ last = Cmd("init", 0, 0, NoPs) /\ gh = Gh0 /\ hist = <<>>
 Next == n < Depth /\ \E c \in McCmds : AlwaysOK(c) /\ Do(c)
 \* weighted random choice of one command (one successor per step: fast, and printable text dominates as in real output)
 AllSgr == SgrFlags \cup SgrPal \cup SgrReset \cup SgrBright \cup SgrTrue \cup SgrZero
@@ -124,7 +133,7 @@ CoreChoice ==
   ELSE IF r <= 92 THEN Cmd("stbm", RandomElement(Z..H), RandomElement(Z..(H + 1)), NoPs)
   ELSE Cmd("sgr", 0, 0, RandomElement({ps \in AllSgr : Z = 0}))
 ExtChoice ==
-  LET r == RandomElement((1 + Z)..106) IN
+  LET r == RandomElement((1 + Z)..(IF Lock THEN 112 ELSE 130)) IN
   IF r <= 14 THEN C1("txt", RandomElement((2 + Z)..(W + 2)))
   ELSE IF r <= 17 THEN C0("ind")
   ELSE IF r <= 21 THEN C0("nel")
@@ -147,7 +156,11 @@ ExtChoice ==
   ELSE IF r <= 95 THEN C0("si")
   ELSE IF r <= 100 THEN Cmd("scs", RandomElement(Z..1), Pick(<<48, 48, 66>>), NoPs)
   ELSE IF r <= 104 THEN C0("cpr")
-  ELSE Pick(<<C0("dsr"), C0("da")>>)
+  ELSE IF r <= 106 THEN Pick(<<C0("dsr"), C0("da")>>)
+  ELSE IF r <= 109 THEN C1("raw", RandomElement((1 + Z)..(W + 1)))
+  ELSE IF r <= 112 THEN C1("mcs", RandomElement(Z..1))
+  ELSE IF r <= 122 THEN C1("raw", RandomElement((1 + Z)..(W + 1)))
+  ELSE C1("mcs", RandomElement(Z..1))
 SimChoice == IF RandomElement((1 + Z)..100) <= ExtPct THEN ExtChoice ELSE CoreChoice
 \* a command that the guards exclude is replaced by text
 Steer(c) == IF (~Clean \/ CleanOK(c)) /\ AlwaysOK(c) THEN c ELSE C0("put")
@@ -172,7 +185,7 @@ RegActs(pre) == IF pre.t \in {"irm", "decawm"} THEN RegTxt
                 ELSE IF pre.t = "lnm" THEN (IF t.cx = 0 THEN {} ELSE {C0("lf"), C0("ind"), C0("nel")})
                 ELSE IF t.cx = 0 THEN RegTxt \cup {C0("cpr")} ELSE RegTxt \cup RegMove
 RegLen == 4 + RegDepth
-RegInit == t = NewVT(W, H) /\ n = 0 /\ last = Cmd("init", 0, 0, NoPs) /\ gh = Gh0 /\ hist = <<Cmd("init", 0, 0, NoPs)>>
+RegInit == t = NewVTL(W, H, Lock) /\ n = 0 /\ last = Cmd("init", 0, 0, NoPs) /\ gh = Gh0 /\ hist = <<Cmd("init", 0, 0, NoPs)>>
 RegNext == \/ n = 0 /\ Do(RegFill)
            \/ n = 1 /\ \E c \in RegPre : Do(c)
            \/ n = 2 /\ \E c \in RegStbm : Do(c)
@@ -187,6 +200,8 @@ ExtShape == /\ t.tabs \subseteq 0..(W - 1)
             /\ (OM(t) => InRegion(t))
             /\ (t.sc.pos # <<>> => t.sc.pos[1] \in 0..(W - 1) /\ t.sc.pos[2] \in 0..(H - 1))
             /\ t.g0 \in {"B", "0"} /\ t.g1 \in {"B", "0"} /\ t.shift \in 0..1
+            /\ t.mcs \in BOOLEAN /\ t.u8lock = Lock
+            /\ (last.t = "raw" => WellFormedFor(Utf8On(t), last.ps) /\ Len(DecodeBytes(Utf8On(t), last.ps)) = last.a)   \* generator sanity
 SelfAccepted == Matches(t, ObsOf(t), TRUE) /\ Matches(t, ObsOf(t), FALSE) /\ Why(t, ObsOf(t), TRUE) = "-"
 DialectWellFormed ==
   \A c \in {d \in McCmds : d.t \in {"cuu", "cud", "cnl", "cpl", "il", "dl", "stbm", "ht", "decrc"}} : LET cs == Cands(t, c, FALSE) IN
@@ -221,10 +236,29 @@ TextBelowRegion ==
                        /\ \A y \in 1..(t.bot + 1) : t'.grid[y] = t.grid[y]]_vars
 \* a query changes nothing
 QueriesChangeNothing == [][last'.t \in Query => t' = t]_vars
+\* selecting the main character set changes nothing that is shown, and what follows is decoded by the set selected last:
+\* a run of k characters (as UTF-8 sequences or as single bytes) prints exactly what the text run of their code points prints
+CharsetSwitchShowsNothing == [][last'.t = "mcs" => t' = [t EXCEPT !.mcs = (last'.a = 1)]]_vars
+RawIsTextOfItsCharacters == [][last'.t = "raw" => t' = Ref(t, Cmd("txt", 0, 0, RawCps(last'.a)))]_vars
+\* UTF-8: encoding and decoding are inverse on every code point class (1, 2, 3, 4 bytes), a run decodes character by character,
+\* 8-bit characters are their bytes, and a byte that belongs to no sequence is told apart from every character
+Utf8Sample == {32, 126, 128, 160, 233, 255, 256, 2047, 2048, 9472, 10272, 65535, 65536, 128512, 1114111}
+Utf8LawsHold ==
+  /\ \A cp \in Utf8Sample : Utf8DecodeFrom(Utf8Encode(cp), 1) = <<cp>> /\ WellFormedFor(TRUE, Utf8Encode(cp))
+  /\ \A a \in Utf8Sample, b \in Utf8Sample : Utf8DecodeFrom(Utf8Encode(a) \o Utf8Encode(b), 1) = <<a, b>>
+  /\ Utf8Encode(233) = <<195, 169>> /\ Utf8Encode(8364) = <<226, 130, 172>> /\ Utf8Encode(128512) = <<240, 159, 152, 128>>
+  /\ \A cp \in 160..255 : DecodeBytes(FALSE, <<cp>>) = <<cp>> /\ Len(DecodeBytes(FALSE, Utf8Encode(cp))) = 2
+  /\ \A bs \in {<<195>>, <<169>>, <<195, 40>>, <<226, 130>>, <<255>>, <<192, 128>>} : Replacement \in {Utf8DecodeFrom(bs, 1)[i] : i \in 1..Len(Utf8DecodeFrom(bs, 1))}
+  /\ ~WellFormedFor(TRUE, <<195>>) /\ ~WellFormedFor(FALSE, <<155>>) /\ WellFormedFor(FALSE, <<195, 169>>)
+ASSUME Utf8Laws == Utf8LawsHold
 
 (* ---- refuted (TLC must find a counterexample) ---- *)
 ExclusiveEraseIsAccepted == Matches(ED1Exclusive(t), ObsOf(ED(t, 1)), FALSE)
 \* autowrap that takes the bottom margin for the bottom of the screen
 MarginBoundWrap(s, c) == IF s.pend /\ s.wrap /\ s.cy > s.bot THEN PutX([s EXCEPT !.cx = 0, !.pend = FALSE], c) ELSE PutX(s, c)
 MarginBoundWrapIsAccepted == Matches(MarginBoundWrap(t, 120), ObsOf(PutX(t, 120)), FALSE)
+\* a decoder that is looked up once per feed: ESC % G / ESC % @ followed in the same feed by two characters
+FrozenDecoderIsAccepted ==
+  \A on \in BOOLEAN : LET bs == IF Utf8On(MCS(t, on)) THEN Utf8EncodeAll(<<233, 162>>) ELSE <<233, 162>>
+                      IN Matches(FrozenDecoderFeed(t, on, bs), ObsOf(ProperFeed(t, on, bs)), FALSE)
 =============================================================================
